@@ -15,7 +15,7 @@ RULE = ("E1: every labelled DAG up to the node bound as ground truth x every col
         "reversible edge, or PDAGs with >=1 undirected edge")
 BOUNDS = {"quick": "PC: all DAGs n<=4 x all column orders (n=4: the 12 even permutations) x 3 variants x callable oracle; independence_match on n<=4 with 3 relabelings; "
                    "skeleton_to_pdag: all sepset choices n<=4 and all 29281 DAGs on 5 nodes (minimal sepsets, one node order); complete PC on the 302 classes of 5-node DAGs x 2 column orders x 3 variants; to_dag: all 4^6 PDAG codes on 4 nodes (and n<=3)",
-          "thorough": "adds all 29281 DAGs on 5 nodes x 6 column orders x {orig, stable}"}
+          "thorough": "adds all 29281 DAGs on 5 nodes x 6 column orders x {orig, stable}; orientation phase on all 32768 order-respecting 6-node DAGs x 4 node presentations"}
 EXHAUSTIVE = {"quick": True, "thorough": True}
 ASSUMPTIONS = ["max_cond_vars in {n, maximum degree of the true skeleton} (the property requires >= max degree)", "independence_match needs every variable to occur in some statement (PC reads the variable set from the list)"]
 
@@ -65,6 +65,10 @@ def groups(tier, seed):
     if tier == "thorough":
         for i in range(0, 29281, 150):
             out.append({"part": "pc5", "n": 5, "lo": i, "hi": min(i + 150, 29281)})
+        # orientation phase on SIX nodes: every DAG whose edges respect the order 0<1<..<5 (2^15 edge sets = every unlabelled
+        # 6-node DAG in at least one labelling) x 4 node presentations
+        for i in range(0, 1 << 15, 128):
+            out.append({"part": "s2p6", "lo": i, "hi": i + 128})
     else:
         # the complete algorithm (skeleton phase included) on the 302 isomorphism classes of 5-node DAGs, 2 column orders, 3 variants
         iso5 = iso_classes(5)
@@ -94,6 +98,9 @@ def run_group(g, tier):
     elif g["part"] == "pc5iso":
         for d in g["dags"]:
             _pc(st, 5, tuple(tuple(e) for e in d), tier, five=True, norders=2, rot=g["rot"])
+    elif g["part"] == "s2p6":
+        for code in range(g["lo"], g["hi"]):
+            _s2p6(st, code)
     elif g["part"] == "s2p5":
         dags = _dags(5)
         for i in range(g["lo"], g["hi"]):
@@ -112,6 +119,8 @@ def replay(case):
     st = Stats()
     if case["part"] == "pc":
         _pc_one(st, case["n"], [tuple(e) for e in case["edges"]], case["order"], case["variant"], case["rt"], case["oracle"], case.get("names", "str"), case.get("mcv"))
+    elif case["part"] == "s2p6":
+        _s2p6(st, case["code"], only_order=case["order"])
     elif case["part"] == "s2p5":
         _s2p5(st, tuple(tuple(e) for e in case["edges"]), 4, only_order=case["order"])
     elif case["part"] == "s2p":
@@ -299,6 +308,51 @@ def _s2p(st, n, edges, only=None):
 
 
 ORDERS5 = [(0, 1, 2, 3, 4), (4, 3, 2, 1, 0), (2, 0, 4, 1, 3), (1, 3, 0, 4, 2)]
+ORDERS6 = [(0, 1, 2, 3, 4, 5), (5, 4, 3, 2, 1, 0), (2, 0, 4, 1, 5, 3), (3, 5, 1, 4, 0, 2)]
+PAIRS6 = list(combinations(range(6), 2))
+
+
+def _s2p6(st, code, only_order=None):
+    import networkx as nx
+
+    from pgmpy.estimators import PC
+
+    n = 6
+    edges = tuple(p for i, p in enumerate(PAIRS6) if code >> i & 1)
+    g = G(n, edges)
+    d, u = _cpdag_meek(n, edges)
+    pairs = [(x, y) for x, y in combinations(range(n), 2) if frozenset((x, y)) not in g.skeleton()]
+    seps = {}
+    for x, y in pairs:
+        for Z in subsets([v for v in range(n) if v not in (x, y)]):
+            if not g.dconnected(x, y, set(Z)):
+                seps[frozenset((x, y))] = tuple(Z)
+                break
+    st.states += 1
+    if d and u:
+        st.nt(code)
+    for oi in range(len(ORDERS6)):
+        if only_order is not None and oi != only_order:
+            continue
+        case = {"part": "s2p6", "n": 6, "code": code, "edges": [list(e) for e in edges], "order": oi}
+        sk = nx.Graph()
+        sk.add_nodes_from(ORDERS6[oi])
+        sk.add_edges_from([tuple(sorted(e)) for e in g.skeleton()])
+        st.evals += 1
+        st.transitions += 1
+        try:
+            res = PC.skeleton_to_pdag(sk, seps)
+        except Exception as ex:
+            st.violation("skeleton_to_pdag", "exception", case, repr(ex)[:300])
+            continue
+        st.compared += 1
+        und = {frozenset(e) for e in res.undirected_edges}
+        dire = set(res.directed_edges)
+        if dire != d or und != u:
+            kind = "directed-cycle" if not is_acyclic(n, sorted(dire)) else "wrong-cpdag"
+            st.violation("skeleton_to_pdag", kind, case, {"directed": sorted(dire), "undirected": sorted(map(sorted, und))},
+                         {"directed": sorted(d), "undirected": sorted(map(sorted, u))})
+        st.outcome((len(d), len(u)))
 
 
 def _s2p5(st, edges, norders, only_order=None):
